@@ -96,6 +96,15 @@ func (f *SQLFormatter) formatStatement(stmt ast.Statement) error {
 	case *ast.MergeStatement:
 		return f.formatMergeStatement(s)
 	default:
+		// No dedicated layout for this statement type: every statement the
+		// parser accepts can still be written with its own serialiser, which
+		// is better than failing a file the library accepts.
+		if s, ok := stmt.(interface{ SQL() string }); ok {
+			if text := s.SQL(); text != "" {
+				f.builder.WriteString(text)
+				return nil
+			}
+		}
 		return fmt.Errorf("unsupported statement type: %T", stmt)
 	}
 }
